@@ -12,6 +12,8 @@ Line protocol (after the property id):
       restricted to the band the dense frequency grid selects; used to run the refinement on concrete inputs)
 -/
 import Nitime.Model.CohBase
+import Nitime.Model.C09Win
+import Nitime.Generated.CacheWin
 
 namespace Nitime.C09
 open Nitime.Coh Nitime.Coh.CScalar
@@ -19,9 +21,37 @@ open Nitime.Coh Nitime.Coh.CScalar
 def parseUb? (s : String) : Option (Option Float) :=
   if s = "none" then some none else (Proto.parseFloat? s).map some
 
+/-- numpy's casts of a float64 window value to the dtype of the data -/
+def cxCasts : Casts Cx where
+  toF32 z := Cx.ofF z.re.toFloat32.toFloat
+  toInt z := Cx.ofF (if z.re < 0.0 then Float.ceil z.re else Float.floor z.re)
+
+def parseDType? : String → Option DType
+  | "f64" => some .f64 | "f32" => some .f32 | "int" => some .int | _ => none
+
+/-- the window token: `hann` (the default function `mlab.window_hanning`), `<values>` (an array, float64 data),
+`hann/<dt>`, `a/<dt>/<values>` (given as data: array / list / tuple of any dtype, its values taken exactly),
+`f/<dt>/<values>` (given as the function `lambda x: values * x`); `<dt>` = dtype class of the DATA (`f64 | f32 | int`).
+Resolved the way the CURRENT source does it (`Generated.CacheWin`). -/
 def parseWin? (s : String) (NFFT : Nat) : Option (List Cx) :=
-  if s = "hann" then some ((hanning NFFT).map Cx.ofF)
-  else (Proto.parseFloatList? s).map (·.map Cx.ofF)
+  let resolve (dt : DType) (wa : WinArg Cx) : Option (List Cx) :=
+    if Nitime.Generated.CacheWin.windowedProduct then
+      windowVals cxCasts (Cx.ofF 1.0) Nitime.Generated.CacheWin.arrayConv Nitime.Generated.CacheWin.funcArg dt NFFT wa
+    else none
+  let hannF : List Cx → List Cx := mulWindow Cx.mul ((hanning NFFT).map Cx.ofF)
+  match s.splitOn "/" with
+  | ["hann"] => resolve .f64 (.func hannF)
+  | ["hann", dt] => (parseDType? dt).bind fun d => resolve d (.func hannF)
+  | ["a", dt, vals] => do
+      let d ← parseDType? dt
+      let v ← Proto.parseFloatList? vals
+      resolve d (.arr (v.map Cx.ofF))
+  | ["f", dt, vals] => do
+      let d ← parseDType? dt
+      let v ← Proto.parseFloatList? vals
+      resolve d (.func (mulWindow Cx.mul (v.map Cx.ofF)))
+  | [vals] => (Proto.parseFloatList? vals).bind fun v => resolve .f64 (.arr (v.map Cx.ofF))
+  | _ => none
 
 def parsePairs? (s : String) : Option (List (Nat × Nat)) :=
   (s.splitOn ";").mapM fun t => match t.splitOn ":" with
